@@ -995,6 +995,12 @@ func harmlessEvictionHook(st *ssa.Store) bool {
 				if sc := ci.Common().StaticCallee(); sc != nil && strings.Contains(sc.String(), "groupcache/lru.") {
 					return false
 				}
+				// a hook that talks to the persistent store is not an observer
+				if cc := ci.Common(); cc.IsInvoke() {
+					if nt, ok := cc.Value.Type().(*types.Named); ok && nt.Obj().Pkg() != nil && nt.Obj().Pkg().Path() == pkgPath("store") {
+						return false
+					}
+				}
 				if ci.Common().StaticCallee() == nil && !ci.Common().IsInvoke() {
 					if _, isB := ci.Common().Value.(*ssa.Builtin); !isB {
 						return false
